@@ -26,7 +26,7 @@ def families(ctx):
 def run(ctx):
     per_family = ctx.pick(75, 1200)
     with cf.ThreadPoolExecutor(max_workers=2) as ex:
-        fd = ex.submit(lc.design_runs, ctx, ctx.pick(["q_acq", "q_hold"], ["acq3", "acq2", "hold2", "hold1"]),
+        fd = ex.submit(lc.design_runs, ctx, ctx.pick(["q_acq", "q_hold"], ["acq3", "acq2", "hold2"]),
                        {"acq2_norecheck": ["InvExclusion"]})
         fg = ex.submit(lc.generate, ctx, families(ctx), per_family)
         scheds = fg.result()
